@@ -203,7 +203,7 @@ func ZZ_C07_History() {
 		switch zzverif.Choice(4) {
 		case 0: // send
 			size := zzverif.Int()
-			zzverif.Assume(size >= 1 && size <= 2*int(maxw))
+			zzverif.Assume(size >= 1 && size <= 2*int(maxw) && size <= int(zzMaxW)) // sizes stay in the kernels' domain (<= 2^30); larger ones are refused as "message too large"
 			probe := zzNewProbe(func() bool { return len(S.sendWindowWait) == 0 })
 			st := S.decrementSendWindow(probe, zzverif.Virtual(size))
 			if st.OK() {
